@@ -578,6 +578,12 @@ func (p *parser) readDirUse() (du *DirectiveUse, err error) {
 	if du.Directive == nil {
 		return nil, parseError(p.line, p.col, "directive missing")
 	}
+	switch du.Directive.(type) {
+	case *List, *NonNull:
+		// readType accepts the type modifiers which makes no sense for a
+		// directive and would hide an undefined name from validation.
+		return nil, parseError(du.line, du.col, "a directive must be a name, not %s", du.Directive.Name())
+	}
 	if p.onDeck == '(' {
 		_, _ = p.readByte() // re-read opening (
 		// Read the arguments.
